@@ -25,10 +25,14 @@ STALE = "# stale output of an earlier run\n" + "stale_line = 0\n" * 400
 def source(i, f, files):
     """file with path index i (1-based index into PATHS)"""
     n = i
-    src = "class K%d\n    def m(self) -> Int => %d\ndef f%d(x: Int) -> Int => x + %d\n" % (n, n, n, n)
-    if f["uses"] != "none":
-        idx = [g["path"] for g in files]
-        target = idx[(idx.index(i) + 1) % len(idx)]
+    idx = [g["path"] for g in files]
+    target = idx[(idx.index(i) + 1) % len(idx)]
+    ring = [g["path"] for g in files if g["uses"] == "inherit"]
+    if f["uses"] == "inherit" and len(ring) > 1:
+        target = ring[(ring.index(i) + 1) % len(ring)]
+    head = "class K%d: K%d\n" % (n, target) if f["uses"] == "inherit" else "class K%d\n" % n
+    src = head + "    def m(self) -> Int => %d\ndef f%d(x: Int) -> Int => x + %d\n" % (n, n, n)
+    if f["uses"] in ("class", "fun"):
         src += "def u%d := K%d()\n" % (n, target) if f["uses"] == "class" else "def u%d: Int := f%d(1)\n" % (n, target)
     if f["fault"] != "none":
         src += FAULT[f["fault"]]
